@@ -228,6 +228,60 @@ int main(int argc, char** argv){ vr::parse(argc, argv); long cases = 0, bad = 0;
   std::printf("NATIVE cases=%ld window=all 2x2, 3x1, 1x1 images over 5-6 boundary values per channel type (gray8/16/16s/8s) + the empty image\n", cases); return 0; }
 '''
 
+# ---------------------------------------------------------------------------------------------------------------------------------------
+# detail::threshold_impl: the per-pixel double loop shared by threshold_binary / threshold_truncate / threshold_optimal
+R_TI = [('R6.requires', r'gil_function_requires<[^;]*>\(\);', '', True),
+        ('R6.static_assert', r'static_assert\(color_spaces_are_compatible.*?\);', '', True),
+        ('R11.src_row', r'typename SrcView::x_iterator src_it = src_view\.row_begin\(y\);', 'rowit_t src_it = ROW_BEGIN(src_view, y);', True),
+        ('R11.dst_row', r'typename DstView::x_iterator dst_it = dst_view\.row_begin\(y\);', 'rowit_t dst_it = ROW_BEGIN(dst_view, y);', True),
+        ('R11.op', r'static_transform\(src_it\[x\], dst_it\[x\], threshold_op\);', 'PIXEL_OP(&src_it, x, &dst_it, x);', True),
+        ('R11.h', r'\b(src_view|dst_view)\.height\(\)', r'\1->h', True), ('R11.w', r'\b(src_view|dst_view)\.width\(\)', r'\1->w', True),
+        ('R11.is1d', r'\b(src_view|dst_view)\.is_1d_traversable\(\)', r'\1->is1d', False),
+        ('L.rows', r'for \(std::ptrdiff_t y = 0; y < ([^;]+); y\+\+\)', r'for (ptrdiff_t y = 0; y < \1; y++)\nTI_ROWS_CONTRACT(\1)', True),
+        ('L.cols', r'for \(std::ptrdiff_t x = 0; x < ([^;]+); x\+\+\)', r'for (ptrdiff_t x = 0; x < \1; x++)\nTI_COLS_CONTRACT(\1)', True)]
+X_TI = [X('threshold_impl', TH, r'void threshold_impl\(SrcView const& src_view, DstView const& dst_view, Operator const& threshold_op\)\s*\{', count=1, rules=R_TI)]
+TI_C = r'''
+typedef struct { ptrdiff_t w, h; _Bool is1d; } view_t;
+typedef struct { const view_t* v; ptrdiff_t y; } rowit_t;                 /* an x-iterator positioned at the first pixel of row y */
+#define HMAX ((ptrdiff_t)1 << 30)
+ptrdiff_t g_x, g_y; int g_hits;                                          /* ghost destination pixel and how often it has been written */
+static rowit_t ROW_BEGIN(const view_t* v, ptrdiff_t y) { rowit_t r; __CPROVER_assert(0 <= y && y < v->h, "ACCESS: row_begin(y) of an existing row"); r.v = v; r.y = y; return r; }
+/* it[x] for an x-iterator at the start of row y: inside the row it is pixel (x, y); past the end of the row it is a pixel of the view only if the
+   view is 1-D traversable (then it is pixel (x mod w, y + x div w)) */
+static void PIXEL_OP(const rowit_t* s, ptrdiff_t sx, const rowit_t* d, ptrdiff_t dx) {
+  __CPROVER_assert(0 <= sx && (sx < s->v->w || s->v->is1d), "ACCESS: the source pixel read lies inside the source view (past the end of its row only in a 1-D traversable view)");
+  __CPROVER_assert(0 <= dx && (dx < d->v->w || d->v->is1d), "ACCESS: the destination pixel written lies inside the destination view (past the end of its row only in a 1-D traversable view)");
+  __CPROVER_assert(sx == dx && s->y == d->y, "the destination pixel has the same coordinates as the source pixel");
+  if (dx < d->v->w && dx == g_x && d->y == g_y) g_hits = g_hits + 1; }
+#define TI_ROWS_CONTRACT(bound) __CPROVER_assigns(y, g_hits) __CPROVER_loop_invariant(0 <= y && y <= (bound) && g_hits == (y > g_y ? 1 : 0)) __CPROVER_decreases((bound) - y)
+#define TI_COLS_CONTRACT(bound) __CPROVER_assigns(x, g_hits) __CPROVER_loop_invariant(0 <= x && x <= (bound) && g_hits == ((y > g_y || (y == g_y && x > g_x)) ? 1 : 0)) __CPROVER_decreases((bound) - x)
+void threshold_impl(const view_t* src_view, const view_t* dst_view, int threshold_op)
+__CPROVER_requires(__CPROVER_is_fresh(src_view, sizeof(view_t)) && __CPROVER_is_fresh(dst_view, sizeof(view_t)))
+__CPROVER_requires(0 <= src_view->w && src_view->w <= HMAX && 0 <= src_view->h && src_view->h <= HMAX && dst_view->w == src_view->w && dst_view->h == src_view->h)   /* same dimensions; their traversability is independent */
+__CPROVER_requires(g_hits == 0 && 0 <= g_x && g_x < dst_view->w && 0 <= g_y && g_y < dst_view->h)
+__CPROVER_assigns(g_hits)
+__CPROVER_ensures(g_hits == 1)          /* every destination pixel (ghost g_x, g_y) is written exactly once, from the source pixel with the same coordinates */
+@@threshold_impl@@
+#ifndef VERIF_NATIVE
+void h_threshold_impl(void){ view_t* s; view_t* d; int op; g_hits = 0; threshold_impl(s, d, op); __CPROVER_assert(0, "VACUITY"); }
+#endif
+'''
+REPLAY_TI = r'''
+#include <boost/gil.hpp>
+#include <boost/gil/image_processing/threshold.hpp>
+#include "vreplay.hpp"
+using namespace boost::gil;
+int main(int argc, char** argv){ vr::parse(argc, argv);
+  // contiguous source, destination = region of interest inside a larger canvas (rows not contiguous): compare with the per-pixel definition, canvas outside the roi untouched
+  for (int W = 1; W <= 4; W++) for (int H = 1; H <= 4; H++) for (int ox : {0, 2}) { gray8_image_t src(W, H); for (int y = 0; y < H; y++) for (int x = 0; x < W; x++) view(src)(x, y) = gray8_pixel_t((unsigned char)(40 * x + 17 * y + 90));
+    gray8_image_t canvas(W + 4, H + 2, gray8_pixel_t(77)); auto roi = subimage_view(view(canvas), ox, 1, W, H);
+    threshold_binary(const_view(src), roi, (unsigned char)128, (unsigned char)255);
+    for (int y = 0; y < H + 2; y++) for (int x = 0; x < W + 4; x++) { bool in = x >= ox && x < ox + W && y >= 1 && y < 1 + H; int got = view(canvas)(x, y)[0];
+      int want = in ? (view(src)(x - ox, y - 1)[0] > 128 ? 255 : 0) : 77;
+      if (got != want) REPRODUCED("threshold_binary %dx%d into a region of interest at (%d,1) of a %dx%d canvas: canvas pixel (%d,%d) = %d, expected %d", W, H, ox, W + 4, H + 2, x, y, got, want); } }
+  NOT_REPRODUCED("threshold_binary into a sub-view matches the per-pixel definition and leaves the rest of the canvas alone"); }
+'''
+
 UNITS = []
 for (n, src, dst, tier) in [('u8', 'uint8_t', 'uint8_t', 'quick'), ('i16', 'int16_t', 'int16_t', 'quick'), ('u16', 'uint16_t', 'uint16_t', 'quick'),
                             ('i8', 'int8_t', 'int8_t', 'thorough'), ('u16_u8', 'uint16_t', 'uint8_t', 'thorough')]:
@@ -245,6 +299,12 @@ for (n, cxx, ct, nn, tier) in [('u8', 'std::uint8_t', 'uint8_t', '1', 'thorough'
                       preconditions=['views up to 10^5 x 10^5, square structuring element up to 1000 x 1000 with its centre inside', 'float channels: no NaN pixel values'],
                       assumed=['src_view(x, y) / dst_view(x, y) = pixel access with the ACCESS precondition (ghost VIEW_READ / VIEW_WRITE)', 'kernel.at / size / center_x / center_y of detail::kernel_2d']))
 UNITS.append(Unit('otsu', 'C16', '/* no extracted body: bounded native stand-in only */\n', checks=[Check('native_window', 'none', engine='N', native=NATIVE_OTSU, timeout=1800, flags=['sanitize'])]))
+
+UNITS.append(Unit('threshold_impl', 'C16', TI_C, extracts=X_TI, replay=REPLAY_TI,
+                  checks=[Check('threshold_impl', 'h_threshold_impl', enforce='threshold_impl', loops=True, object_bits=10, timeout=600)],
+                  preconditions=['source and destination have the same dimensions (<= 2^30); their row layout (1-D traversable or not) is independent'],
+                  assumed=['row_begin(y)[x] is pixel (x, y) inside the row and, past its end, a pixel of the view only when the view is 1-D traversable (C03)',
+                           'static_transform(src_pixel, dst_pixel, op) writes every channel of dst_pixel with op(channel of src_pixel) (the six per-channel operators are under contract in units threshold.*)']))
 
 META = dict(not_covered=['threshold_optimal (Otsu) is checked only by the bounded native stand-in', 'median filter, threshold_adaptive, opening/closing algebra (idempotence, monotonicity): not built',
                          'morphology: existence half (the result IS one of the neighbourhood values) is not stated; the universal half (>= / <= every neighbour and the centre) is'])
